@@ -148,6 +148,15 @@ Proof.
   - exact T_default_ok.
 Qed.
 
+(** ** Tie to the source by translation: the binary64 snap of [dimensionalize_timedelta64] in
+    Model/Time64.v is the expression of dinosaur/primitive_equations.py, transcribed into primitive-float
+    terms on every run (tools/translate/gen_time64.py; the truncating return branches and
+    [nondimensionalize_timedelta64] are pinned textually). *)
+From Dino Require Import Gen.Time64Src Thm.Time64Src.
+Theorem C18_snap_ms_is_source (dt : PrimFloat.float) :
+  snap_ms dt = snap_ms_src dt /\ gen_time64_ok = true.
+Proof. split; [apply snap_ms_matches_source | exact gen_time64_complete]. Qed.
+
 Print Assumptions C18_dim_nondim_inverse.
 Print Assumptions C18_dim_nondim_same.
 Print Assumptions C18_nondim_unit_independent.
@@ -165,3 +174,4 @@ Print Assumptions C18_phase_unique.
 Print Assumptions C18_phase_advance.
 Print Assumptions C18_phase_period.
 Print Assumptions C18_hyps_satisfiable.
+Print Assumptions C18_snap_ms_is_source.
